@@ -211,6 +211,33 @@ Proof.
   apply input_values_convert; auto.
 Qed.
 
+(* array-valued ref / ref0: every selected source entry has its own (a0, a1) *)
+Lemma input_values_v_convert : forall a0s a1s factor offset src P,
+  (forall p, In p P -> ~ (nth (Z.to_nat p) a1s 1 == 0)%Q) ->
+  Qlist_eq (input_values_v a0s a1s factor offset src P)
+           (map (convert factor offset) (pick 0%Q src P)).
+Proof.
+  intros a0s a1s factor offset src P NZ. unfold input_values_v, Qlist_eq, pick.
+  rewrite map_map. induction P as [|p P IH]; cbn [map]; constructor.
+  - apply scaled_transfer_converts. apply NZ. left; auto.
+  - apply IH. intros q Hq. apply NZ. right; auto.
+Qed.
+
+Theorem connected_input_value_v : forall (src : list Q) shape chain P a0s a1s factor offset,
+  Z.of_nat (length src) = prodZ shape ->
+  chain_extents shape chain ->
+  om_positions shape chain = Some P ->
+  (forall p, In p P -> ~ (nth (Z.to_nat p) a1s 1 == 0)%Q) ->
+  exists vals s,
+    src_through_chain 0%Q src shape chain = Some (vals, s) /\
+    Qlist_eq (input_values_v a0s a1s factor offset src P) (map (convert factor offset) vals).
+Proof.
+  intros src shape chain P a0s a1s factor offset L E H NZ.
+  destruct (positions_deliver Q src 0%Q shape chain P L E H) as [s Hs].
+  exists (pick 0%Q src P), s. split; auto.
+  apply input_values_v_convert; auto.
+Qed.
+
 (* ------------------------------------------------------------------ the code before the repair *)
 
 (* connect(src_indices=[1]) (non-flat) from a (2,3) source: the old get_src_index_array returned
